@@ -461,6 +461,19 @@ func (e *executor) publish(unit, m int, key string) {
 	copy(e.pub[12:], key)
 }
 
+// noteHeavy tells the supervisor that the running case allocated beyond the C02 bound without being
+// a violation of the property at hand (C03): it is not run again if the unit is restarted.
+func (e *executor) noteHeavy() {
+	if e.out == nil {
+		return
+	}
+	b, _ := json.Marshal(violationMsg{V: true, Unit: e.curUnit, M: e.curM})
+	e.out.Write(b)
+	e.out.WriteByte('\n')
+	e.out.Flush()
+	e.violated = true // accounted for by the supervisor
+}
+
 // publishPhase replaces the published key of the running case by a phase marker.
 func (e *executor) publishPhase(ph string) {
 	if e.pub == nil {
@@ -633,12 +646,17 @@ func (e *executor) runCaseKey(t *dtarget, in []byte, key string, desc func() str
 	// C03
 	if g.panicked || err != nil {
 		r.Outcomes["not-decodable"]++
-		return alloc > uint64(allocPerByte*len(in)+allocSlack)
+		if alloc > uint64(allocPerByte*len(in)+allocSlack) {
+			e.noteHeavy()
+			return true
+		}
+		return false
 	}
 	if alloc > uint64(allocPerByte*len(in)+allocSlack) {
 		// C02 territory; the value is not re-encoded (a 2^31 element slice cannot be)
 		r.Outcomes["decoded-with-excessive-allocation(C02)"]++
 		r.NotJudged++
+		e.noteHeavy()
 		return true
 	}
 	e.publishPhase("@reencode")
@@ -1468,9 +1486,9 @@ func superviseShard(prop string, s evid.ShardInfo, w *evid.Run, p *plan, assign 
 	// start (or hundreds of megabytes of page faults). Each priority class has a budget of such
 	// inputs per shard; when it is used up the remaining units of the class are reported as not
 	// run. On a tree without such inputs nothing is cut.
-	budgets := []int{24, 48, 12, 12, 12, 8}
+	budgets := []int{12, 32, 8, 12, 8, 8}
 	if p.thorough {
-		budgets = []int{48, 96, 24, 24, 24, 16}
+		budgets = []int{24, 64, 16, 24, 16, 16}
 	}
 	if x, _ := strconv.Atoi(os.Getenv("VERIF_CODEC_BUDGET_X")); x > 1 { // exploration aid: larger budgets
 		for i := range budgets {
@@ -1478,7 +1496,7 @@ func superviseShard(prop string, s evid.ShardInfo, w *evid.Run, p *plan, assign 
 		}
 	}
 	classNames := []string{"default seeds of built-ins", "exhaustive/grid/tower units", "default seeds of generated types", "other seeds of built-ins", "other seeds of generated types", "pairs"}
-	fails, curClass := 0, -1
+	fails, curClass, curKey := 0, -1, -1
 	dir, err := os.MkdirTemp(evid.Scratch(), "codec-")
 	if err != nil {
 		evid.EngineError(prop, "scratch: %v", err)
@@ -1506,14 +1524,23 @@ func superviseShard(prop string, s evid.ShardInfo, w *evid.Run, p *plan, assign 
 	deaths, unitDeaths := 0, 0
 	var samples int
 	for start < len(mine) {
-		if c := prio(myUnits[start]); c != curClass {
-			curClass, fails = c, 0
+		// the budget is per class and shard; for the built-ins (classes 0 and 3) it is per entry
+		// point, so that a failing built-in cannot use up the budget of the others
+		bkey := func(u unit) int {
+			c := prio(u)
+			if c == 0 || c == 3 {
+				return c*100000 + u.Target
+			}
+			return c * 100000
+		}
+		if k := bkey(myUnits[start]); k != curKey {
+			curKey, curClass, fails = k, prio(myUnits[start]), 0
 		}
 		if fails > budgets[curClass] {
-			// skip the remaining units of this class
+			// skip the remaining units of this class (of this entry point)
 			var cases int64
 			nskip := 0
-			for start < len(mine) && prio(myUnits[start]) == curClass {
+			for start < len(mine) && bkey(myUnits[start]) == curKey {
 				u := myUnits[start]
 				switch u.Kind {
 				case "mut":
@@ -1554,6 +1581,15 @@ func superviseShard(prop string, s evid.ShardInfo, w *evid.Run, p *plan, assign 
 				}
 				if vm.Unit != start {
 					evid.EngineError(prop, "executor reported a violation in unit %d, expected %d", vm.Unit, start)
+				}
+				if vm.Sig == "" { // a case with an excessive allocation that is not a violation of this property
+					if !judged[vm.M] {
+						judged[vm.M] = true
+						w.Eval("")
+						fails++
+						skip = append(skip, strconv.Itoa(vm.M))
+					}
+					continue
 				}
 				w.Violate(vm.Sig, vm.Detail, vm.Replay)
 				if !judged[vm.M] && strings.Contains(vm.Sig, "/alloc/") {
